@@ -793,7 +793,7 @@ func ruleC09Replay(c *Ctx) {
 			if _, isB := call.Call.Value.(*ssa.Builtin); isB {
 				continue
 			}
-			if n, ok := call.Call.Value.Type().(*types.Named); ok && n.Obj().Name() == "cmdHandler" {
+			if n, ok := call.Call.Value.Type().(*types.Named); ok && (n.Obj().Name() == "cmdHandler" || (curProg != nil && curProg.isPkgType(n, "cmdHandler"))) {
 				D, H = fn, call
 			}
 		}
